@@ -22,6 +22,8 @@ def replay_one(mod, prop, findings, path, d, verbose=False):
         else:
             known.append((k, sig, msg))
     if verbose:
+        for line in res.info.get("trace", []):
+            out("  " + line)
         for sig, msg in res.violations:
             out("  violation signature=%s : %s" % (json.dumps(list(sig)), msg))
         if res.aborted:
@@ -71,6 +73,10 @@ def main(argv=None):
                 return 1
             return 0
 
+        if os.path.isdir(common.FOUND_DIR):
+            for fn in os.listdir(common.FOUND_DIR):
+                if fn.startswith(prop + "-"):
+                    os.remove(os.path.join(common.FOUND_DIR, fn))
         violations = []      # (sig, msg, replay path)
         known_hits = {}      # finding id -> (finding, count)
 
